@@ -6,13 +6,20 @@ VERIF = os.path.dirname(os.path.dirname(os.path.abspath(__file__)))
 
 CLAIMED = {
     "C01": ("solveOne_sound / solveAll_sound / optimize_sound: on the model of the search loop, for every variable and value heuristic and every reachable stack, every yielded or returned vector is `reported P σ` for an assignment σ inside the root domains satisfying every posted constraint (C01_enumeration, C01_optimisation); whole-run correspondence (solution sequence + 13 statistics) and brute-force check of the real solver", "§7 C01"),
+    "C04": ("C04_any_scheduler / C04_bcPass: under the engine invariant a propagation pass returns after fewer than (W+1)(n+1) constraint executions for every scheduler (lexicographic measure); Safe per algorithm; whole-solver runs under a watchdog; search termination stated (C04_search_full)", "§7 C04"),
     "C05": ("Sound <alg> theorems (Lean) for the proved algorithms + correspondence of every compute_domains_* with the model + brute-force oracle on the implementation", "§7 C05"),
     "C06": ("GroundOk <alg> theorems + C06_point_iff; correspondence on instantiated boxes; oracle", "§7 C06"),
     "C07": ("EntailOk <alg> theorems; status correspondence; oracle", "§7 C07"),
     "C08": ("bcLoopG_inv: for every admissible scheduler a pass preserves `queued ∨ fixpoint`, only shrinks, ends with an empty queue (C08_pass, C08_shipped); TrigOk per algorithm; step-level correspondence of every pass on random walks of the real engine", "§7 C08"),
     "C09": ("BranchOk for the five shipped value heuristics (partition, untouched rest, complete events for the branch taken and every recorded alternative), backtrack restores the saved level and fails iff none is left; step-level correspondence of every decision on random walks of the real engine", "§7 C09"),
+    "C11": ("C11_solve/C11_stats/C11_aggregate/C11_optimize_*: for every interleaving of the workers' streams the parent yields a permutation of all solutions, consumes all messages, keeps final statistics, returns an optimal solution; the REAL parent loop driven through a scripted queue on enumerated interleavings", "§7 C11"),
+    "C12": ("C12_split_Sol/_unique/_disjoint + splitBounds_*: the parts are non-empty consecutive intervals covering the domain; the sub-problems' solution sets partition the problem's; exhaustive comparison of Problem.split with the model", "§7 C12"),
     "C14": ("Exact <alg> theorems (support of every bound + idempotence), affineEq_oneRound; equality of model and implementation on the exhaustive small scope; brute-force hull", "§7 C14"),
 }
+CLAIMED.update({
+    "C17": ("C17_pass_exact (ghost trace of executions = counters), C17_solveOne/C17_solveAll (SOLUTION, BC = CHOICE + BACKTRACK + 1), C17_depth; the 13 statistics of every whole run compared with the model's", "§7 C17"),
+    "C18": ("C18_halts_within_two_polls, C18_safety, C18_message_clears_suspicion on the parent state machine with time-outs; real worker processes killed at three points under a deadline watchdog; PARTIAL: OS behaviour of is_alive()/get(timeout) is tested, not proved", "§7 C18"),
+})
 NOT_YET = {}
 
 
